@@ -22,7 +22,7 @@ def run(ck):
     if not ck.violations:
         conslib.replay_conformance(ck, ck.binary, "uni", uni[: (30 if quick else 600)], ["C02_"], tag="runi", conformance=not quick, sync=True)
     if not ck.violations:
-        conslib.attack_replays(ck, ck.binary, ["C02_"])
+        conslib.attack_replays(ck, ck.binary, ["C02_"], extra=([] if quick else conslib.fresh_attacks(ck, ck.seed + 100)))
     a = ck.cov["antecedents"]
     if not ck.violations and (a.get("decisions", 0) < 20 or not a.get("byz_deliveries")):
         raise Inconclusive("vacuous run: %s" % a)
